@@ -181,7 +181,7 @@ class World:
         k = self.seam_count
         self.trace.log("seam", k=k, kind=kind, detail=detail)
         if self.between_seams is not None:
-            self.between_seams(kind)
+            self.between_seams(kind, detail)
         if self.kill_at is not None and self.kill_at == (k, "before"):
             self.frozen = True
             self.fault("kill_before_" + kind.split(":")[0])
@@ -282,7 +282,8 @@ class World:
         if t is not None:
             for d in self.model.deps(j.name):
                 pj = self.jref(d)
-                if pj is not None and self.job_phase(pj) in ("pending", "running"):
+                same_run = any(a[0] == d for a in self.accepted_now)
+                if pj is not None and (same_run or self.job_phase(pj) in ("pending", "running")):
                     producers.append(pj)
         self.job_model[j.id] = dict(outputs=outs, name=j.name, producers=producers,
                                     spec=t.spec() if t is not None else "", wd=t.wd if t is not None else "")
@@ -599,6 +600,9 @@ class World:
             for fn in files:
                 p = os.path.join(root, fn)
                 rel = p[len(self.proj) + 1:]
+                if os.path.islink(p):
+                    snap[rel] = ("link", os.readlink(p).replace(self.base, "$BASE"))
+                    continue
                 st = os.stat(p)
                 with fsx._real_open(p, "rb") as f:
                     data = f.read()
